@@ -236,6 +236,24 @@ pub fn h_shim_opt_cond<S: Src>(s: &mut S) {
         _ => vassert!(s, false, "shim map: same class as the inner parser"),
     }
 }
+// ---------------------------------------------------------------- pair
+pub fn h_shim_pair<S: Src, const N: usize>(s: &mut S) {
+    use tp::nom::sequence::pair;
+    let buf: [u8; N] = s.bytes();
+    let n = s.usize();
+    vassume!(s, n <= N);
+    let i = &buf[..n];
+    let r: R<(u8, u8)> = pair(elem, elem)(i);
+    match elem(i) {
+        Err(e1) => match &r { Err(e) => vassert!(s, *e == e1, "shim pair: the first parser's error is propagated unchanged"), _ => vassert!(s, false, "shim pair: first parser failed, so pair fails") },
+        Ok((rem1, o1)) => match (elem(rem1), &r) {
+            (Ok((rem2, o2)), Ok((rem, (a, b)))) => vassert!(s, *a == o1 && *b == o2 && rem.as_ptr() == rem2.as_ptr() && rem.len() == rem2.len(), "shim pair: both outputs in order, second parser runs on the first's remainder, its remainder returned"),
+            (Err(e2), Err(e)) => vassert!(s, *e == e2, "shim pair: the second parser's error is propagated unchanged"),
+            _ => vassert!(s, false, "shim pair: result class is the second parser's on the first's remainder"),
+        },
+    }
+}
+harness!(shim_pair, unwind = 6, h_shim_pair::<_, 4>);
 harness!(shim_opt_cond, unwind = 6, h_shim_opt_cond);
 harness!(shim_map_parser, unwind = 6, h_shim_map_parser::<_, 5>);
 harness!(shim_take, unwind = 3, h_shim_take::<_, 6>);
